@@ -192,6 +192,66 @@ pub fn check(case: &Case) -> CaseResult {
 
 pub const RULE: &str = "arbitrary entry (timestamp/config/value call sequences, colliding + arbitrary Unicode names, strings with quotes/backslashes/controls/astral chars, 0-5 observations incl. NaN/inf/-0/zero-occurrence in every position, all units incl. custom, per-metric dimensions, flags) x arbitrary Emf configuration (5 constructors, 1-3 namespaces, 1-3 dimension sets, extra directives, log group, ignored-dimension mode) x sampling (none / sampled-no-rate / rate incl. invalid). Oracle: Ok => strict RFC 8259 parse of every newline-terminated line + _aws shape; Validation => zero bytes; never panics. Non-trivial = accepted entry with (a metric of >=2 observations of which >=1 is skipped) or a name/string needing escaping or >=2 records";
 
+/// one formatter, several entries, some over faulting writers: every accepted output must
+/// still be complete valid records (state left behind by a failed call must not leak)
+#[derive(Clone, Debug, Serialize, Deserialize)]
+pub struct SeqCase {
+    pub cfg: EmfCfg,
+    pub items: Vec<(GenEntry, Option<crate::iofault::WScript>, Sampling)>,
+}
+
+pub fn check_seq(case: &SeqCase) -> CaseResult {
+    use crate::iofault::{ScriptedWriter, WStep};
+    let mut emf = no_panic("emf-build", || case.cfg.build())?;
+    let mut classes: Classes = vec![];
+    let mut prev_failed = false;
+    for (i, (entry, script, sampling)) in case.items.iter().enumerate() {
+        let (dec, bytes, faulted) = match script {
+            None => {
+                let mut out = vec![];
+                let d = no_panic("emf-format", || format_once(&mut emf, entry, sampling, &mut out))?;
+                (d, out, false)
+            }
+            Some(sc) => {
+                let w = ScriptedWriter::new(sc.clone());
+                let mut wr = w.clone();
+                let d = no_panic("emf-format", || format_once(&mut emf, entry, sampling, &mut wr))?;
+                let faulted = w.calls().iter().any(|c| matches!(c.step, WStep::Zero | WStep::Hard(_)));
+                (d, w.received(), faulted)
+            }
+        };
+        match &dec {
+            Decision::Ok => {
+                vensure!(!faulted, "io:fault-not-surfaced", "item {i}: writer faulted but format returned Ok");
+                if let Err(e) = decode_output(&bytes) {
+                    vfail!(
+                        if prev_failed { "invalid-json:after-failed-call" } else { invalid_sig(entry) },
+                        "item {i} (previous call failed: {prev_failed}): format returned Ok but the bytes are not complete valid EMF records: {e}\noutput={:?}",
+                        String::from_utf8_lossy(&bytes[..bytes.len().min(2000)])
+                    );
+                }
+                if prev_failed {
+                    classes.push("accepted-after-failed-call");
+                    classes.push("nt");
+                }
+                prev_failed = false;
+            }
+            Decision::Validation(_) => {
+                vensure!(bytes.is_empty(), "validation-error-wrote-bytes", "item {i}: validation error but {} bytes written", bytes.len());
+                classes.push("validation");
+                prev_failed = true;
+            }
+            Decision::Io(_) => {
+                classes.push("io-failed");
+                prev_failed = true;
+            }
+        }
+    }
+    classes.sort();
+    classes.dedup();
+    Ok(classes)
+}
+
 pub fn run(ctx: &mut Ctx) {
     ctx.assume("writer is an in-memory Vec (I/O errors are covered by C16)");
     ctx.assume("strict JSON parser in vh::json is the syntax oracle (RFC 8259, duplicate members visible, no trailing commas)");
@@ -221,5 +281,25 @@ pub fn run(ctx: &mut Ctx) {
             ]),
         arb_case,
         check,
+    );
+    ctx.explore(
+        SubCfg::new(
+            "emf-valid-json-sequence",
+            "2-8 arbitrary entries formatted by ONE formatter, each into a Vec or a scripted writer (short writes / Interrupted / Ok(0) / hard errors), with or without sampling: every call that returns Ok must have produced complete valid framed records, a validation error zero bytes - whatever the previous calls did. Non-trivial = an accepted entry directly after a call that failed (validation or I/O)",
+            ctx.tier.pick(30_000, 1_000_000),
+        )
+        .threads(threads)
+        .mandatory(&["accepted-after-failed-call", "io-failed", "validation"]),
+        || {
+            (
+                arb_cfg_any(),
+                prop::collection::vec(
+                    (arb_entry(), prop::option::weighted(0.35, crate::iofault::arb_wscript()), arb_sampling()),
+                    2..8,
+                ),
+            )
+                .prop_map(|(cfg, items)| SeqCase { cfg, items })
+        },
+        check_seq,
     );
 }
